@@ -207,20 +207,35 @@ def make_ks(model, mol, uks, gcfg, mdesc):
         ks.grids.prune = None
     nldf_init = None
     st = model.settings
+    kw = None
     if st.has_nldf:
+        kw = dict(aparam=0.04, dparam=0.06, alpha_max=3000.0, aux_lambd=1.9)
+        if mdesc.get("zero_d"):
+            # numeric options handed over as 0-d arrays (what np.asarray / a config loader give):
+            # they are the caller's objects and the initializer is used for several builds
+            kw = {k: np.array(v) for k, v in kw.items()}
+            kw["alpha_min"] = np.array(st.nldf_settings.theta_params[0] / 256)
         nldf_init = PySCFNLDFInitializer(
             st.nldf_settings,
             plan_type=mdesc.get("plan_type", "gaussian"),
             interpolator_type=mdesc.get("interp", "onsite_direct"),
             nrad=80,
-            aparam=0.04,
-            dparam=0.06,
-            alpha_max=3000.0,
-            aux_lambd=1.9,
+            **kw,
         )
     ks = make_cider_calc(ks, model, xmix=mdesc.get("xmix", 0.5), xkernel="GGA_X_PBE", ckernel="GGA_C_PBE", nldf_init=nldf_init)
     ks.grids.verbose = 0
+    ks._verif_kw = (kw, {k: float(v) for k, v in kw.items()}) if kw else None
     return ks
+
+
+def check_option_objects(ks):
+    """caller-owned option objects of the initializer must still hold what the caller put in"""
+    if getattr(ks, "_verif_kw", None):
+        kw, orig = ks._verif_kw
+        for k, v in kw.items():
+            if float(v) != orig[k]:
+                return "%s: %r -> %r" % (k, orig[k], float(v))
+    return None
 
 
 def build_grids(ks, mol):
@@ -243,7 +258,7 @@ def gen_ni_history(seed):
     models = []
     for _ in range(nm):
         s, ev, mode, ver = rng.choice(NI_MODELS)
-        models.append({"settings": s, "ev": ev, "mode": mode, "version": ver, "seed": rng.below(10**6), "plan_type": rng.choice(["gaussian", "spline"]), "interp": rng.choice(["onsite_direct", "onsite_spline"]), "xmix": rng.choice([1.0, 0.5, 0.25])})
+        models.append({"settings": s, "ev": ev, "mode": mode, "version": ver, "seed": rng.below(10**6), "plan_type": rng.choice(["gaussian", "spline"]), "interp": rng.choice(["onsite_direct", "onsite_spline"]), "xmix": rng.choice([1.0, 0.5, 0.25]), "zero_d": bool(rng.chance(0.3))})
     nmol = rng.randint(1, 3)
     mols = []
     for _ in range(nmol):
@@ -513,6 +528,9 @@ def exec_ni_history(hist, rp):
         site = "%s.%s" % (fam, "nr_uks" if uks else "nr_rks")
         if before != after:
             V("input-mutated:%s:dm-grid-or-mol" % site, "step %d: caller-owned arrays changed by the call" % step)
+        chg = check_option_objects(ks)
+        if chg:
+            V("input-mutated:PySCFNLDFInitializer:option-object", "step %d: an option passed as a 0-d array was changed in place (%s)" % (step, chg))
         nset = len(dms)
         for lab, arr, snap in held:
             if not np.array_equal(np.asarray(arr), snap, equal_nan=True):
@@ -972,7 +990,7 @@ def exec_sdmxgen_history(hist, rp):
 def gen_ks_history(seed):
     rng = Rng(derive("c09-ks", seed))
     s, ev, mode, ver = rng.choice(NI_MODELS)
-    model = {"settings": s, "ev": ev, "mode": mode, "version": ver, "seed": rng.below(10**6), "plan_type": rng.choice(["gaussian", "spline"]), "interp": rng.choice(["onsite_direct", "onsite_spline"]), "xmix": rng.choice([1.0, 0.5])}
+    model = {"settings": s, "ev": ev, "mode": mode, "version": ver, "seed": rng.below(10**6), "plan_type": rng.choice(["gaussian", "spline"]), "interp": rng.choice(["onsite_direct", "onsite_spline"]), "xmix": rng.choice([1.0, 0.5]), "zero_d": bool(rng.chance(0.3))}
     uks = bool(rng.chance(0.4))
     names = ["H2", "HeH+", "LiH", "H2O"] if not uks else ["H2", "OH", "O", "H", "LiH"]
     nmol = rng.randint(2, 3)
@@ -1221,6 +1239,10 @@ def gen_plan_history(seed):
     nobj = rng.weighted([(1, 3), (2, 2)])  # several plan objects of the same settings alive at once
     for _ in range(rng.randint(3, 9)):
         s = rng.below(p["nspin"])
+        if rng.chance(0.25):
+            # the plans' public coefficient API, as the generators and the GPAW driver call it
+            ops.append({"op": "coef", "spin": s, "what": rng.choice(["a2q", "a2q", "interp"]), "i": rng.choice([-1, 0]), "fwd": bool(rng.chance(0.5)), "inplace": bool(rng.chance(0.3)), "x": rng.below(3), "twice": bool(rng.chance(0.5)), "alias": rng.choice([None, None, "readonly"]), "obj": rng.below(nobj)})
+            continue
         if s in have and rng.chance(0.5):
             ops.append({"op": "vxc", "spin": s, "v": rng.below(3), "obj": rng.below(nobj)})
         else:
@@ -1306,6 +1328,52 @@ def exec_plan_history(hist, rp):
         stats["op_plan_" + op["op"]] += 1
         dg.add(op["op"], s)
         try:
+            if op["op"] == "coef":
+                set_perturb(hist["perturb"] ^ 0x5A)
+                fresh_plan = make_plan()
+                set_perturb(hist["perturb"])
+                nq = p["nalpha"]
+                r3 = np.random.default_rng(900 + op["x"])
+                if op["what"] == "a2q":
+                    x0 = r3.normal(size=(nq, 9) if p["order"] == "qg" else (9, nq))
+
+                    def run(pl, arr):
+                        return pl.get_transformed_interpolation_terms(arr, i=op["i"], fwd=op["fwd"], inplace=op["inplace"])
+
+                else:
+                    try:
+                        rt = fresh_plan.get_rho_tuple(rhos[op["x"]].copy())
+                        x0 = np.array(fresh_plan.get_interpolation_arguments(rt, i=op["i"])[0], copy=True)
+                    except Exception:
+                        stats["coef_requests_rejected_by_fresh_plan"] += 1
+                        continue
+
+                    def run(pl, arr):
+                        c_, dc_ = pl.get_interpolation_coefficients(arr, i=op["i"])
+                        return np.concatenate([np.ravel(c_), np.ravel(dc_)])
+
+                try:
+                    want = np.array(run(fresh_plan, x0.copy()), copy=True)
+                except Exception:
+                    stats["coef_requests_rejected_by_fresh_plan"] += 1
+                    continue  # not a supported request for these settings (fresh plans reject it too)
+                arr = x0.copy()
+                if op["alias"] == "readonly" and not (op["what"] == "a2q" and op["inplace"]):
+                    arr.setflags(write=False)
+                got = np.array(run(plan, arr), copy=True)
+                if not (op["what"] == "a2q" and op["inplace"]) and not np.array_equal(arr, x0):
+                    V("input-mutated:%s.%s:argument" % (site, "get_transformed_interpolation_terms" if op["what"] == "a2q" else "get_interpolation_coefficients"), "step %d: i=%d fwd=%s order=%s (max change %.3g)" % (step, op["i"], op["fwd"], p["order"], float(np.abs(arr - x0).max())))
+                ok, why = close(got, want)
+                stats["comparisons"] += 1
+                if not ok:
+                    V("history_vs_fresh:%s.coef:%s" % (site, op["what"]), "step %d: %s" % (step, why))
+                if op["twice"] and not (op["what"] == "a2q" and op["inplace"]):
+                    got2 = np.array(run(plan, arr), copy=True)  # the same array object again
+                    ok, why = close(got2, want)
+                    stats["comparisons"] += 1
+                    if not ok:
+                        V("repeat:%s.coef:%s" % (site, op["what"]), "step %d: second call with the same array differs: %s" % (step, why))
+                continue
             if op["op"] == "rho":
                 f_in, r_in = fs[op["f"]].copy(), rhos[op["rho"]].copy()
                 b = adigest(f_in, r_in)
